@@ -1970,7 +1970,7 @@ class MayRaise:
             return out
         if name in ("re.compile", "re.match", "re.search", "re.fullmatch", "re.sub", "re.escape"):
             if name == "re.sub" and len(e.args) >= 2:
-                out |= self.callback_escapes(e.args[1], ctx, e)
+                out |= self.callback_escapes(e.args[1], ctx, e, [prim("match")])
             return out
         if name in ("itertools.takewhile", "itertools.dropwhile", "itertools.filterfalse", "filter", "map", "itertools.starmap") and len(e.args) >= 2:
             # lazily applies the function to the elements: what it can raise surfaces where the result is consumed - inside this
@@ -2024,7 +2024,7 @@ class MayRaise:
                 add(f"{meth}", exc, lenient, why)
                 return out
             if base == "pattern" and meth == "sub" and e.args:
-                out |= self.callback_escapes(e.args[0], ctx, e)
+                out |= self.callback_escapes(e.args[0], ctx, e, [prim("match")])
                 return out
             if base == "set" and meth == "remove":
                 x = norm(e.func.value)
@@ -2200,7 +2200,7 @@ class MayRaise:
             return True, f"length is defined as the minimal octet count of `{x.id}` (>= 0)"
         return False, "length may be too small for the value"
 
-    def callback_escapes(self, cb: ast.expr, ctx, site: ast.Call) -> Set[Esc]:
+    def callback_escapes(self, cb: ast.expr, ctx, site: ast.Call, ptypes=None) -> Set[Esc]:
         fi: FuncInfo = ctx["fi"]
         t = self.r.type_of(cb, fi)
         if t[0] == "funcs":
@@ -2211,7 +2211,7 @@ class MayRaise:
         if t in (prim("str"), prim("bytes")) or isinstance(cb, (ast.Constant, ast.JoinedStr)):
             return set()
         if isinstance(cb, ast.Lambda) and not isinstance(fi.node, ast.Lambda):
-            li = self.r.lambda_info(fi, cb, None)
+            li = self.r.lambda_info(fi, cb, ptypes)
             return self.call_summary(li, None, ctx, site, None)
         if isinstance(cb, ast.Attribute) and isinstance(cb.value, ast.Name) and cb.value.id == "operator" and \
                 cb.attr in ("eq", "ne", "lt", "le", "gt", "ge", "is_", "is_not", "not_", "truth", "and_", "or_", "xor", "add", "sub", "mul", "neg", "pos", "index"):
